@@ -34,6 +34,32 @@ theorem setAttribute_scalar {env : Env} {sc : Scope} {path : PathSpec} {ref : Li
   rw [hsc]
   exact hst
 
+/-- `SetAttribute` whose last name is found (alias of length one, or the property itself) in a block at
+`a ++ b`, into a scalar property not touched yet; `pre` = the part of the path walked before -/
+theorem setAttr_walk {env : Env} {sc ps : Scope} {path : PathSpec} {ref : List Ident} {val : AV}
+    {pre : List PathElement} {n : Str} {pos : Option Span} {s : Schema} {spec : BlockSpec} {a b : Addr}
+    {final : Str} {i : Nat} {og : Option (Str × List Nat)} {ty : FieldType} {pres : Bool} {X X1 : Node}
+    {t : List Bool} {vs : List Node} {cur : Node} {v : Scalar}
+    (hfp : combinePath path ref = pre ++ [⟨n, pos⟩])
+    (hws : Exact (walkScope env sc pre) a X ps X1)
+    (hfb : findBlock n ps.blockSet = some (cfOf s spec (a ++ b), [final]))
+    (hpi : propInfo env s final = some (i, og, .scalar ty pres))
+    (hX1 : X1.get? b = some (.msg t vs))
+    (ht : t[i]? = some false) (hv : vs[i]? = some cur) (hconf : NoConflict og vs)
+    (hna : val.asArray = none) (hsc : scalarFromAST env ty val = .ok v) :
+    Exact (setAttribute env (fuelOf env) sc path ref val false) a X ()
+      (X1.set b (.msg (t.set i true) (vs.set i (storeNode pres v)))) := by
+  have hlt : i < vs.length := (List.getElem?_eq_some_iff.mp hv).1
+  refine setAttribute_scalar (last := ⟨n, pos⟩) hfp hws
+    ((scopeField_direct hfb (propInfo_hasProperty hpi) (propSetValue_build _ hpi ht hv hconf)).lift hX1)
+    hna hsc ?_
+  have h := Exact.setNode (a := a) (b := b ++ [i])
+    (X := X1.set b (.msg (t.set i true) (vs.set i (builtValue (.scalar ty pres) cur)))) (storeNode pres v)
+  rw [← List.append_assoc] at h
+  refine h.conv ?_
+  rw [Node.set_append (Node.get?_set_self' hX1 _), Node.set_set,
+    Node.set_msg_single _ _ _ cur _ (by rw [List.getElem?_set_self hlt]; rfl), List.set_set]
+
 /-- `SetAttribute` by ONE name (an alias of length one or the property itself) into a scalar property,
 not touched yet, of the message at `c` -/
 theorem setAttr_direct {env : Env} {sc : Scope} {path : PathSpec} {ref : List Ident} {val : AV}
@@ -47,12 +73,110 @@ theorem setAttr_direct {env : Env} {sc : Scope} {path : PathSpec} {ref : List Id
     (hna : val.asArray = none) (hsc : scalarFromAST env ty val = .ok v) :
     Exact (setAttribute env (fuelOf env) sc path ref val false) c (.msg t vs) ()
       (.msg (t.set i true) (vs.set i (storeNode pres v))) := by
+  have h := setAttr_walk (a := c) (b := []) (pre := []) (X := .msg t vs) hfp (walkScope_nil _ _ _)
+    (by rw [List.append_nil]; exact hfb) hpi (Node.get?_nil _) ht hv hconf hna hsc
+  exact h.conv (Node.set_nil _ _)
+
+/-- an attribute of a block at `c ++ b`, run below `c` -/
+theorem setAttr_in {env : Env} {sc : Scope} {path : PathSpec} {ref : List Ident} {val : AV}
+    {n : Str} {pos : Option Span} {s : Schema} {spec : BlockSpec} {c b : Addr} {final : Str} {i : Nat}
+    {og : Option (Str × List Nat)} {ty : FieldType} {pres : Bool} {X : Node} {t : List Bool} {vs : List Node}
+    {cur : Node} {v : Scalar}
+    (hfp : combinePath path ref = [⟨n, pos⟩])
+    (hfb : findBlock n sc.blockSet = some (cfOf s spec (c ++ b), [final]))
+    (hpi : propInfo env s final = some (i, og, .scalar ty pres))
+    (hX : X.get? b = some (.msg t vs))
+    (ht : t[i]? = some false) (hv : vs[i]? = some cur) (hconf : NoConflict og vs)
+    (hna : val.asArray = none) (hsc : scalarFromAST env ty val = .ok v) :
+    Exact (setAttribute env (fuelOf env) sc path ref val false) c X ()
+      (X.set b (.msg (t.set i true) (vs.set i (storeNode pres v)))) :=
+  setAttr_walk (pre := []) hfp (walkScope_nil _ _ _) hfb hpi hX ht hv hconf hna hsc
+
+/-! ## `SetAttribute` of a string list into an array of scalars -/
+
+theorem appendScalar_exact (f : Addr) (v : Scalar) (xs : List Node) :
+    Exact (appendScalar f v) f (.list xs) () (.list (xs ++ [.scalar v])) := by
+  intro S hS
+  simp only [appendScalar, M.bind_apply, getNode_apply, hS, setNode_apply]
+
+theorem listLength_exact (f : Addr) (xs : List Node) :
+    Exact (listLength f) f (.list xs) xs.length (.list xs) := by
+  intro S hS
+  simp only [listLength, M.bind_apply, getNode_apply, hS, M.pure_apply, Node.set_get_self hS]
+
+/-- `AppendASTValue` of quoted strings -/
+theorem appendValues_strs (env : Env) (f : Addr) (ss : List Str) (h : ss.all okString = true) (xs : List Node) :
+    Exact (appendValues env f (.scalar .string) ((ss.map strValue).map .value)) f (.list xs) ()
+      (.list (xs ++ ss.map fun s => .scalar (.str s))) := by
+  induction ss generalizing xs with
+  | nil => simp only [List.map_nil, List.append_nil]; exact Exact.pure _ _ _
+  | cons s rest ih =>
+    simp only [List.all_cons, Bool.and_eq_true] at h
+    simp only [List.map_cons, appendValues, scalarFromAST, asString_strValue (isAscii_of_okString h.1),
+      Option.map_some]
+    refine Exact.bind (appendScalar_exact f _ xs) ?_
+    have := ih h.2 (xs ++ [.scalar (.str s)])
+    rw [List.append_assoc] at this
+    exact this
+
+/-- `SetAttribute` on a path that ends in an array-of-scalars field, with an array value -/
+theorem setAttribute_array {env : Env} {sc : Scope} {path : PathSpec} {ref : List Ident}
+    {val : AV} {pre : List PathElement} {last : PathElement} {a : Addr} {X X1 X2 X3 : Node} {ps : Scope}
+    {f : Addr} {item : FieldType} {avs : List AV}
+    (hfp : combinePath path ref = pre ++ [last])
+    (hws : Exact (walkScope env sc pre) a X ps X1)
+    (hsf : Exact (scopeField env ps last.name false) a X1 ⟨f, .arrayOfScalar item⟩ X2)
+    (hva : val.asArray = some avs)
+    (hlen : Exact (listLength f) a X2 0 X2)
+    (happ : Exact (appendValues env f item avs) a X2 () X3) :
+    Exact (setAttribute env (fuelOf env) sc path ref val false) a X () X3 := by
+  rw [fuelOf_succ, setAttribute]
+  dsimp only
+  rw [hfp]
+  rw [if_neg (by simp), List.getLast?_concat, List.dropLast_concat]
+  dsimp only
+  refine Exact.bind hws ?_
+  refine Exact.bind (hsf.tryCatch _) ?_
+  dsimp only
+  rw [hva]
+  dsimp only
+  refine Exact.bind hlen ?_
+  rw [if_neg (by simp)]
+  exact happ
+
+/-- a string list into an array-of-strings property, not touched yet, of a block at `a ++ b` -/
+theorem setAttr_walk_strs {env : Env} {sc ps : Scope} {path : PathSpec} {ref : List Ident}
+    {pre : List PathElement} {n : Str} {pos : Option Span} {s : Schema} {spec : BlockSpec} {a b : Addr}
+    {final : Str} {i : Nat} {og : Option (Str × List Nat)} {X X1 : Node}
+    {t : List Bool} {vs : List Node} {x : Str} {xs : List Str}
+    (hfp : combinePath path ref = pre ++ [⟨n, pos⟩])
+    (hws : Exact (walkScope env sc pre) a X ps X1)
+    (hfb : findBlock n ps.blockSet = some (cfOf s spec (a ++ b), [final]))
+    (hpi : propInfo env s final = some (i, og, .arrayOfScalar (.scalar .string)))
+    (hX1 : X1.get? b = some (.msg t vs))
+    (ht : t[i]? = some false) (hv : vs[i]? = some .absent) (hconf : NoConflict og vs)
+    (hok : (x :: xs).all okString = true) :
+    Exact (setAttribute env (fuelOf env) sc path ref (.value (strsValue (x :: xs))) false) a X ()
+      (X1.set b (.msg (t.set i true) (vs.set i (.list ((x :: xs).map fun s => .scalar (.str s)))))) := by
   have hlt : i < vs.length := (List.getElem?_eq_some_iff.mp hv).1
-  refine setAttribute_scalar (pre := []) (last := ⟨n, pos⟩) hfp (walkScope_nil _ _ _)
-    (scopeField_direct hfb (propInfo_hasProperty hpi) (propSetValue_build _ hpi ht hv hconf)) hna hsc ?_
-  refine (Exact.setNode (a := c) (b := [i]) _).conv ?_
-  rw [Node.set_msg_single _ _ _ cur _ (by rw [List.getElem?_set_self hlt]; rfl), List.set_set]
-  rfl
+  have hM : (X1.set b (Node.msg (t.set i true) (vs.set i (.list [])))).get? b =
+      some (Node.msg (t.set i true) (vs.set i (.list []))) := Node.get?_set_self' hX1 _
+  have hX2 : (X1.set b (.msg (t.set i true) (vs.set i (.list [])))).get? (b ++ [i]) = some (.list []) := by
+    rw [Node.get?_append, hM, Option.bind_some, Node.get?_msg_single _ _ _ (.list [])]
+    rw [List.getElem?_set_self hlt]
+  have hsf := (scopeField_direct (existingIsOk := false) hfb (propInfo_hasProperty hpi)
+    (propSetValue_build (c := a ++ b) (cur := .absent) true hpi ht hv hconf)).lift hX1
+  have hf : a ++ b ++ [i] = a ++ (b ++ [i]) := List.append_assoc _ _ _
+  refine setAttribute_array (last := ⟨n, pos⟩) (avs := ((x :: xs).map strValue).map .value) hfp hws hsf rfl ?_ ?_
+  · have h := (listLength_exact (a ++ (b ++ [i])) []).lift (a := a) (b := b ++ [i]) hX2
+    rw [Node.set_get_self hX2] at h
+    rw [hf]
+    exact h
+  · have h := (appendValues_strs env (a ++ (b ++ [i])) (x :: xs) hok []).lift (a := a) (b := b ++ [i]) hX2
+    rw [hf]
+    refine h.conv ?_
+    rw [Node.set_append hM, Node.set_set,
+      Node.set_msg_single _ _ _ (.list []) _ (by rw [List.getElem?_set_self hlt]), List.set_set, List.nil_append]
 
 /-! ## `checkBang`, name tag, type select -/
 
@@ -239,6 +363,34 @@ theorem doBody_append {env : Env} {sc : Scope} {l1 l2 : List Statement} {a : Add
     Exact (doBody env sc (l1 ++ l2)) a X () X2 := by
   rw [doBody_append_eq]
   exact Exact.bind h1 h2
+
+/-! ## Blocks of the scope that do not know a name -/
+
+/-- the block `o` has neither an alias nor a property `n` -/
+def Misses (o : ContainerField) (n : Str) : Prop :=
+  aliasLookup n o.spec.aliases = none ∧ o.container.hasProperty n = false
+
+theorem findBlock_skip_all {n : Str} {outer rest : List ContainerField} (h : ∀ o ∈ outer, Misses o n) :
+    findBlock n (outer ++ rest) = findBlock n rest := by
+  induction outer with
+  | nil => rfl
+  | cons o os ih =>
+    rw [List.cons_append, findBlock_skip (h o (by simp)).1 (h o (by simp)).2]
+    exact ih (fun o' ho' => h o' (List.mem_cons_of_mem _ ho'))
+
+theorem findBlock_prop' {n : Str} {s : Schema} {spec : BlockSpec} {c : Addr} {rest : List ContainerField}
+    (h : aliasLookup n spec.aliases = none) (hp : s.hasProperty n = true) :
+    findBlock n (cfOf s spec c :: rest) = some (cfOf s spec c, [n]) :=
+  findBlock_prop (b := cfOf s spec c) h hp
+
+theorem findBlock_alias' {n : Str} {s : Schema} {spec : BlockSpec} {c : Addr} {rest : List ContainerField}
+    {p : PathSpec} (h : aliasLookup n spec.aliases = some p) :
+    findBlock n (cfOf s spec c :: rest) = some (cfOf s spec c, p) :=
+  findBlock_alias (b := cfOf s spec c) h
+
+theorem misses_cfOf {n : Str} {s : Schema} {spec : BlockSpec} {c : Addr}
+    (h : aliasLookup n spec.aliases = none) (hp : s.hasProperty n = false) : Misses (cfOf s spec c) n :=
+  ⟨h, hp⟩
 
 /-! ## Block statements of the printed tree -/
 
